@@ -20,11 +20,12 @@ def run(report, tier, seed, driver, proofs_ok):
     thorough = tier == "thorough"
     report.rule = (
         "(a) exhaustive table Type × Default × NoEcho × supplied value through Parameter.get_ref_value vs Template.refValue "
-        f"({len(TYPES) * len(DEFAULTS) * len(NOECHO) * len(SUPPLIED)} rows, every run); (b) generated templates whose parameters are declared / "
+        f"({len(TYPES) * len(DEFAULTS) * len(NOECHO) * len(SUPPLIED)} rows, every run; each again with AllowedValues / AllowedPattern / length constraints the value does and does not meet); (b) generated templates whose parameters are declared / "
         "undeclared / defaulted / overridden / value-less / list-typed / NoEcho, with pseudo-parameter overrides and SSM keys, "
         "through CFModel.resolve vs Template.resolveT; (c) NoEcho: the same template resolved with two different random "
         "secrets must give equal models, and the secret text must not occur in the serialised resolved model outside the "
-        "Parameters section; (d) has_hardcoded_credentials on Authentication metadata and IAM user login profiles vs the model. "
+        "Parameters section; (d) has_hardcoded_credentials on Authentication metadata (one block, and three blocks naming the same field "
+        "in every arrangement of absent / NoEcho marker / literal) and IAM user login profiles vs the model. "
         "distinct_nontrivial = distinct table rows + distinct templates with at least one reference."
     )
     # (a) exhaustive table
@@ -36,6 +37,13 @@ def run(report, tier, seed, driver, proofs_ok):
         if ne != "<absent>":
             decl["NoEcho"] = ne
         rows.append((decl, sup))
+        # the declaration's constraints (AllowedValues, AllowedPattern, lengths) are CloudFormation's to enforce at deploy
+        # time: they never change which value a reference resolves to
+        if sup is not None:
+            rows.append((dict(decl, AllowedValues=["never-this"], AllowedPattern="^z+$", MaxLength=1, ConstraintDescription="c"), sup))
+            rows.append((dict(decl, AllowedValues=[sup, 80, "80"]), sup))
+        elif df != "<absent>":
+            rows.append((dict(decl, AllowedValues=["never-this"]), sup))
     for decl, sup in rows:
         p = Parameter(**decl)
         ops.append(dict({"op": "param", "provided": common.enc(sup)}, **tmpl.decl_of(p)))
@@ -64,6 +72,7 @@ def run(report, tier, seed, driver, proofs_ok):
             report.violation("correspondence+oracle", what, op={"op": "param", "decl": decl, "supplied": sup}, impl=io, model=mo,
                              oracle="Template.refValue (C04_precedence / C04_list_split / C04_noecho_markers / C04_total)")
     report.exhaustive = True
+    report.extra["table_rows"] = len(rows)
 
     # (b) templates
     n = 6000 if thorough else 300
@@ -138,6 +147,16 @@ def run(report, tier, seed, driver, proofs_ok):
             if v != "<absent>":
                 auth[f] = v
         cred_cases.append({"AWS::CloudFormation::Authentication": {"cred1": {"type": "S3"}, "cred2": auth}})
+    # several blocks naming the same credential field: each block is judged on its own, in whatever order they come
+    for f in ("accessKeyId", "password", "secretKey"):
+        for v1, v2, v3 in itertools.product(["<absent>", NE, "hunter2"], repeat=3):
+            blocks = {}
+            for name, v in (("legacy", v1), ("repo", v2), ("mirror", v3)):
+                b = {"type": "basic", "username": "deploy", "uris": ["http://repo.example/"]}
+                if v != "<absent>":
+                    b[f] = v
+                blocks[name] = b
+            cred_cases.append({"AWS::CloudFormation::Authentication": blocks})
     cred_cases += [None, {}, {"Other": 1}, {"AWS::CloudFormation::Authentication": {}}, {"AWS::CloudFormation::Authentication": {"c": {"accessKeyId": NE}}}]
     ops, impls = [], []
     from pycfmodel.model.resources.generic_resource import GenericResource
